@@ -20,6 +20,9 @@ def main():
     if pid in ("C07", "C18"):
         from . import codec_checks
         return {"C07": codec_checks.run_c07, "C18": codec_checks.run_c18}[pid](rest)
+    if pid in ("C08", "C09"):
+        from . import species_checks
+        return {"C08": species_checks.run_c08, "C09": species_checks.run_c09}[pid](rest)
     if pid == "C05":
         from . import c05
         return c05.run(rest)
